@@ -1689,13 +1689,30 @@ class SoftAbsRegularizedPositiveDefiniteMatrix(
 
     def softabs(self, x: NDArray) -> NDArray:
         """Smooth approximation to absolute function."""
-        return x / np.tanh(x * self._softabs_coeff)
+        u = np.asarray(x) * self._softabs_coeff
+        # x / tanh(x * softabs_coeff) is 0 / 0 at zero where its limit is 1 / softabs_coeff
+        is_zero = u == 0
+        return (
+            np.where(is_zero, 1.0, u / np.tanh(np.where(is_zero, 1.0, u)))
+            / self._softabs_coeff
+        )
 
     def grad_softabs(self, x: NDArray) -> NDArray:
         """Derivative of smooth approximation to absolute function."""
-        return (
-            1.0 / np.tanh(self._softabs_coeff * x)
-            - self._softabs_coeff * x / np.sinh(self._softabs_coeff * x) ** 2
+        u = np.asarray(x) * self._softabs_coeff
+        # 1 / tanh(u) - u / sinh(u)**2 is a difference of large terms for small u (and
+        # 0 / 0 at zero), use its series expansion about zero there instead
+        is_small = np.abs(u) < 0.1  # noqa: PLR2004
+        safe_u = np.where(is_small, 1.0, u)
+        return np.where(
+            is_small,
+            u
+            * (
+                2 / 3
+                + u**2
+                * (-4 / 45 + u**2 * (4 / 315 + u**2 * (-8 / 4725 + u**2 * 4 / 18711)))
+            ),
+            1.0 / np.tanh(safe_u) - safe_u / np.sinh(safe_u) ** 2,
         )
 
     @property
